@@ -36,7 +36,8 @@ class _Sched:
         self.finished = set()
         self.grant = None
         self.free = False
-        self.tids = {}          # thread ident -> tid
+        self.tids = {}          # thread ident -> tid (idents of finished threads may be reused: last writer wins)
+        self.started = 0
         self.seg = []           # what the running segment observed
 
     def me(self):
@@ -76,9 +77,9 @@ class _Sched:
                     raise _Stuck(f"thread {tid} did not finish its step")
             return "".join(self.seg)
 
-    def done(self):
+    def done(self, tid):
         with self.cv:
-            self.finished.add(self.me())
+            self.finished.add(tid)
             self.cv.notify_all()
 
     def release(self):
@@ -170,21 +171,26 @@ def _impl_sched(case) -> str:
         sched.seg.append(f"x{t}.{n}")
         executed.append((t, n, threading.get_ident()))
 
+    def register(tid):
+        with sched.cv:
+            sched.tids[threading.get_ident()] = tid
+            sched.started += 1
+
     def producer(t):
-        sched.tids[threading.get_ident()] = t
+        register(t)
         try:
             for n in range(wants[t]):
                 r.callFromThread(fn, t, n)
         except BaseException as e:     # noqa
             errors.append(repr(e))
         finally:
-            sched.done()
+            sched.done(t)
 
     stop = threading.Event()
     alldone = lambda: all(t in sched.finished for t in range(len(wants)))
 
     def reactor_thread():
-        sched.tids[threading.get_ident()] = "R"
+        register("R")
         try:
             while not stop.is_set():
                 state["lens"] = 0
@@ -195,10 +201,17 @@ def _impl_sched(case) -> str:
                 sched.seg.append("S")
                 sched.point("select")
                 if sched.free:
-                    if not r.waker.flag.wait(2.0):
+                    waited, quit_ = 0.0, False
+                    while not r.waker.flag.wait(0.02):
+                        waited += 0.02
                         if alldone() and not list.__len__(q):
+                            quit_ = True
                             break
-                        errors.append("STALL")
+                        if waited > 3.0:
+                            errors.append("STALL")
+                            quit_ = True
+                            break
+                    if quit_:
                         break
                 elif state.get("spurious"):
                     state["spurious"] = False
@@ -212,7 +225,7 @@ def _impl_sched(case) -> str:
         except BaseException as e:     # noqa
             errors.append(repr(e))
         finally:
-            sched.done()
+            sched.done("R")
 
     threads = [threading.Thread(target=producer, args=(t,), daemon=True) for t in range(len(wants))]
     rt = threading.Thread(target=reactor_thread, daemon=True)
@@ -223,7 +236,7 @@ def _impl_sched(case) -> str:
         # wait for every thread to know its tid and reach its first point
         import time
         t0 = time.time()
-        while len(sched.tids) < len(wants) + 1:
+        while sched.started < len(wants) + 1:
             if time.time() - t0 > STEP_TIMEOUT:
                 raise _Stuck("threads did not start")
             time.sleep(0.0005)
